@@ -156,6 +156,10 @@ class _TextCueParser:
 
   def _handle_endtag(self, _token: EndTagToken):
 
+    if _token.tag.lower() == "ruby" and isinstance(self.parent, model.Rt):
+      # the last </rt> of a ruby may be omitted
+      self.parent = self.parent.parent().parent()
+
     if isinstance(self.parent, model.Ruby):
       self.ruby_rbc = None
       self.ruby_rtc = None
